@@ -3,6 +3,7 @@ package c04
 import (
 	"crypto/sha256"
 	"fmt"
+	"os"
 	"sort"
 	"strings"
 	"sync"
@@ -1110,6 +1111,8 @@ func auxPart(d string) string {
 	return js
 }
 
+var debugExplore = os.Getenv("VERIF_C04_DEBUG") != ""
+
 // explore runs the BFS of one scenario. par runs fn over [0,n) (serially or on the worker pool) and
 // reports whether it completed.
 func (x *explorer) explore(sc *scenario, worker int, par func(n int64, fn func(worker int, lo, hi int64)) bool) scenarioResult {
@@ -1207,6 +1210,14 @@ func (x *explorer) explore(sc *scenario, worker int, par func(n int64, fn func(w
 			id := int32(len(states) - 1)
 			next = append(next, id)
 			ndumps[id] = c.dump
+		}
+		if debugExplore {
+			fmt.Printf("DEBUG %s depth %d: %d transitions, %d new states (%d expandable)\n", sc.Name, depth, total, len(cands), len(next))
+			for i, id := range next {
+				if i%(len(next)/12+1) == 0 {
+					fmt.Printf("   [%s] %s\n", pathString(pathOf(states, sc, id)), strings.Split(ndumps[id], "\n")[0])
+				}
+			}
 		}
 		frontier, dumps = next, ndumps
 		res.Depth = depth
